@@ -447,16 +447,38 @@ pub fn env_spec() -> BoxedStrategy<Option<BTreeMap<String, String>>> {
     .boxed()
 }
 
+/// Another spelling of a path that a recorder other than runlib may have written (not normalised).
+pub fn respelled_path(k: &str, how: u8) -> String {
+    match how % 7 {
+        0 => format!("./{}", k),
+        1 => format!("{}/", k),
+        2 => format!("x/../{}", k),
+        3 => format!("d//{}", k),
+        4 => format!("d///{}", k),
+        5 => format!("file:///srv/{}", k),
+        _ => format!("{}/.", k),
+    }
+}
+
 pub fn link_spec(rich_text: bool) -> BoxedStrategy<LinkSpec> {
     let name = if rich_text { ident() } else { "[a-z]{1,6}".prop_map(|s| s).boxed() };
-    (name, artifacts(4, true), artifacts(4, true), env_spec(), byproducts_spec(), command_spec())
-        .prop_map(|(name, materials, products, env, byproducts, command)| LinkSpec {
-            name,
-            materials,
-            products,
-            env,
-            byproducts,
-            command,
+    // format-level documents (rich text): one artifact in seven links is recorded under a non-normalised spelling
+    let respell = if rich_text { prop_oneof![6 => Just(None), 1 => (any::<u8>(), any::<u8>()).prop_map(Some)].boxed() } else { Just(None).boxed() };
+    (name, artifacts(4, true), artifacts(4, true), env_spec(), byproducts_spec(), command_spec(), respell)
+        .prop_map(|(name, mut materials, mut products, env, byproducts, command, respell)| {
+            if let Some((sel, how)) = respell {
+                let side = if sel % 2 == 0 && !materials.is_empty() { &mut materials } else { &mut products };
+                let keys: Vec<String> = side.keys().cloned().collect();
+                if !keys.is_empty() {
+                    let k = keys[(sel as usize / 2) % keys.len()].clone();
+                    let nk = respelled_path(&k, how);
+                    if !side.contains_key(&nk) {
+                        let v = side.remove(&k).unwrap();
+                        side.insert(nk, v);
+                    }
+                }
+            }
+            LinkSpec { name, materials, products, env, byproducts, command }
         })
         .boxed()
 }
